@@ -109,6 +109,30 @@ def run_digits(ctx):
                         ctx.fail("wrong_exception", case, f"{u!r}")
                     continue
                 check_host_invariants(ctx, u, case, chain=False)
+        # the same digits inside an IPv6-looking literal: accepted means canonical (compressed, bracketed, idempotent), else ValueError
+        for lit6 in (f"0:0:0:0:0:0:0:{d}", f"::{d}", f"{d}::", f"fe80:0:0:0:0:0:0:{d}%eth0", f"2001:db8:0:0:0:0:0{d}:1", f"::ffff:1.2.3.{d}"):
+            for route, fn in (("ctor6", lambda: URL(f"http://[{lit6}]:8080/p")), ("build_host6", lambda: URL.build(scheme="http", host=lit6)),
+                              ("build_authority6", lambda: URL.build(scheme="http", authority=f"u@[{lit6}]:81")), ("with_host6", lambda: base.with_host(lit6))):
+                u = guarded(fn)
+                ctx.ev((route, "unicode-digit-v6", "U+%04X" % (cp & 0xFFF0), "exc" if is_exc(u) else "ok"))
+                case = {"route": route, "host": lit6, "class": "unicode-digit-v6"}
+                if is_exc(u):
+                    if u.type == "ValueError" or u.type.startswith("Unicode") or u.type in ("IDNAError", "InvalidCodepoint", "InvalidCodepointContext", "IDNABidiError"):
+                        ctx.count("rejected_ok")
+                    else:
+                        ctx.fail("wrong_exception", case, f"{u!r}")
+                    continue
+                raw6 = guarded(lambda: u.raw_host)
+                if is_exc(raw6) or not raw6 or ":" not in raw6:
+                    ctx.fail("ipv6_digit_host_mangled", case, f"raw_host={raw6!r} str={guarded(str, u)!r}")
+                    continue
+                a6, sep6, z6 = raw6.partition("%")
+                if hostm.ipv6_canonical(a6) is None:
+                    # the digit is not mapped to an ASCII one: the bracketed text is no IPv6 address at all, and the lenient parser lets
+                    # any bracketed text with a ':' in (like '[zz:zz]') - nothing is promised about it
+                    ctx.count("gray_bracketed_non_ipv6")
+                    continue
+                check_host_invariants(ctx, u, case, addr=a6, zone=z6 if sep6 else None, chain=False)
     from ..gen import ascii_confusables
 
     for d in ascii_confusables():
